@@ -91,7 +91,7 @@ func c14GenSpec(r *sim.Rand, kind int, faulty bool) []int {
 		rfAt, rfKind = r.Intn(3), 1+r.Intn(4)
 	}
 	// ck, ek, cipher, kdf, salt, iter, sub, path, rcpt, chunk, rfAt, rfKind
-	return []int{ck, ek, cipher, r.Intn(c14KDFs), salt, r.Range(1, 16), r.Intn(12), r.Intn(2), r.Intn(2), chunk, rfAt, rfKind}
+	return []int{ck, ek, cipher, r.Intn(c14KDFs), salt, r.Range(1, 16), r.Intn(12), r.PickInt(0, 1, 0, 1, 2, 3), r.Intn(2), chunk, rfAt, rfKind}
 }
 
 func c14GenPassword(r *sim.Rand) []byte {
@@ -239,7 +239,10 @@ func (e *c14Env) reader(tag string, chunk, at, kind int) *sim.ScriptReader {
 // key type) with the given secret and judges the result against want.
 func (e *c14Env) deliver(i int, opKind, what string, load *c14Rec, want *c14Key, data, pw []byte, rcpt, variant, mode int, orig *c14Rec) {
 	c := e.c
-	got, err := c14Load(load, data, pw, e.rcpt[c14Mod(rcpt, 2)], variant)
+	// the loader is handed a buffer of its own, which is overwritten as soon as it returns: a decoded key must not
+	// live in its caller's buffer
+	buf := append([]byte{}, data...)
+	got, err := c14Load(load, buf, pw, e.rcpt[c14Mod(rcpt, 2)], variant)
 	if err == errC14Cost {
 		c.Hit("skip:kdf-cost-limit")
 		return
@@ -247,7 +250,19 @@ func (e *c14Env) deliver(i int, opKind, what string, load *c14Rec, want *c14Key,
 	e.loads++
 	c.OutErr(what, err)
 	if err == nil {
-		c.Out("key", c14Fingerprint(got))
+		fp := c14Fingerprint(got)
+		for k := range buf {
+			buf[k] = ^buf[k]
+		}
+		if fp2 := c14Fingerprint(got); !bytes.Equal(fp, fp2) {
+			c.Fail("key-aliases-input", i, opKind, "%s: the decoded key changes when the caller reuses the buffer it was decoded from (%s key in %s): %x -> %x", what, c14KindName[want.kind], c14ContainerName[load.spec.ck], trunc(fp, 24), trunc(fp2, 24))
+			return
+		}
+		if r := c14Consistent(got); r != "" {
+			c.Fail("inconsistent-key", i, opKind, "%s: the loader returned a key whose public part does not belong to its private part (%s in %s): %s", what, c14KindName[want.kind], c14ContainerName[load.spec.ck], r)
+			return
+		}
+		c.Out("key", fp)
 	}
 	desc := func() string {
 		return fmt.Sprintf("%s key (scalar class %d) in %s [%s], %d bytes", c14KindName[want.kind], want.sclass, c14ContainerName[load.spec.ck], load.desc, len(data))
@@ -345,7 +360,7 @@ func (e *c14Env) deliver(i int, opKind, what string, load *c14Rec, want *c14Key,
 func (e *c14Env) specFrom(op *sim.Op, base int) c14Spec {
 	s := c14Spec{
 		ck: c14Mod(op.Int(base), c14ContainerKinds), ek: c14Mod(op.Int(base+1), c14EkKinds), cipher: c14Mod(op.Int(base+2), len(c14Ciphers)), kdf: c14Mod(op.Int(base+3), c14KDFs),
-		salt: c14Mod(op.Int(base+4), 41), iter: 1 + c14Mod(op.Int(base+5)-1, 16), sub: c14Mod(op.Int(base+6), 12), path: c14Mod(op.Int(base+7), 2), rcpt: c14Mod(op.Int(base+8), 2),
+		salt: c14Mod(op.Int(base+4), 41), iter: 1 + c14Mod(op.Int(base+5)-1, 16), sub: c14Mod(op.Int(base+6), 12), path: c14Mod(op.Int(base+7), 4), rcpt: c14Mod(op.Int(base+8), 2),
 	}
 	return s
 }
@@ -400,7 +415,10 @@ func (e *c14Env) store(i int, opKind string, key *c14Key, spec c14Spec, slot int
 		default:
 			c.Hit("probe:encrypter/pbes1-" + c14PBES1Name[c14Mod(spec.cipher, len(c14PBES1))])
 		}
-		c.Hit(fmt.Sprintf("probe:salt-source/%d", spec.path))
+		c.Hit(fmt.Sprintf("probe:salt-source/%d", spec.path&1))
+		if spec.path&2 != 0 {
+			c.Hit("probe:encrypter-object-reuse-requested")
+		}
 	}
 	if spec.ck == c14PEM || spec.ck == c14SM9 {
 		c.Hit("probe:" + desc)
@@ -447,6 +465,7 @@ func execC14(t *testing.T, p *sim.Program, c *sim.Ctx) {
 		c.Fail("setup", -1, "setup", "%v", err)
 		return
 	}
+	c14LastEnc.enc = nil
 	e := &c14Env{c: c, seed: fitKey(p.CB("seed"), 32)}
 	e.keys = &c14Keys{seed: e.seed, mrb: mrb, cache: map[string]*c14Key{}}
 	for k := range e.rcpt {
@@ -907,6 +926,10 @@ func (e *c14Env) byzantine(i int, op *sim.Op) {
 			}
 			if g := gotScalar(); g == nil || g.Cmp(d) != 0 {
 				c.Fail("roundtrip-mismatch", i, op.K, "%s: %s returned the scalar %x", what, entry, g)
+				return
+			}
+			if r := c14Consistent(got); r != "" {
+				c.Fail("inconsistent-key", i, op.K, "%s: %s returned a key whose public part does not belong to its private part: %s", what, entry, r)
 			}
 		}
 	}
